@@ -513,6 +513,7 @@ func (p *Prop[C]) Test(t *testing.T) {
 			case !v.OK:
 				st.Failed = true
 				st.FailMsg = v.Msg
+				writeLast(p.Name, canon(c))
 				fmt.Printf("WITNESS-FAIL sub=%s file=%s msg=%s\n", p.Name, f, oneLine(v.Msg))
 				t.Fatalf("pinned witness %s fails: %s", f, v.Msg)
 			}
